@@ -6,6 +6,35 @@
  */
 #include <sys/stat.h>
 
+/* ghost state of the global unit */
+struct ghost_glob {
+	int kind, alive, pos, marked;
+	int tested;		/* times the scan evaluated the pattern on the witness */
+	int execs;		/* times the command list ran with the witness as current line */
+	int last_get;		/* index of the last lbuf_get */
+	int broke;		/* a command list failed: the scan stops early (documented) */
+	int dep;		/* nesting depth of this global */
+	int sets, any_exec;
+} GW;
+/* ghost state of the substitute units (declared early: the environment reset macro clears S.line) */
+struct ghost_sub {
+	char *line;		/* the line being rewritten (what lbuf_get returned) */
+	long L;			/* its length including the final newline */
+	long in_pos;		/* bytes of it accounted for so far */
+	int finds;		/* rstr_find calls on this line */
+	int matches;		/* matches replaced on this line */
+	int bad;		/* a piece was appended out of order */
+	int sb_live, sb_made, sb_freed;
+	int beg, end;		/* the addressed range */
+	int last_edit;		/* line number of the last lbuf_edit */
+	int edits;
+	int lines_seen;
+	int re_ok;
+	int rep_calls;
+	long mlen;		/* length of the current match */
+	int expect_char;	/* the last match was empty: the next verbatim piece must be exactly one character */
+} S;
+
 /* ------------------------------------------------------------------ environment: files */
 /* all ghost bookkeeping lives in ONE struct so that a frame clause names a single target */
 struct ghost_env {
@@ -102,7 +131,7 @@ int lbuf_wr(struct lbuf *lb, int fd, int beg, int end)
 	return g_wr_ret;
 }
 
-#define FILE_ENV_HAVOC() do { g_st_exists = nondet_bool(); g_st_mtime = nondet_long(); \
+#define FILE_ENV_HAVOC() do { S.line = 0; g_st_exists = nondet_bool(); g_st_mtime = nondet_long(); \
 	__CPROVER_assume(g_st_mtime >= 0); g_stat_calls = 0; g_open_calls = 0; g_open_ok = 0; \
 	g_close_calls = 0; g_close_fail = 0; g_wr_calls = 0; g_wr_ret = 0; g_open_fd = -1; E.f_wr_fail_any = 0; E.f_open_fail_any = 0; \
 	g_len = nondet_int(); __CPROVER_assume(g_len >= 0 && g_len <= 0x1000000); } while (0)
@@ -177,6 +206,9 @@ void h_lbuf_save(void)
  * g_dirty[i] is the abstract "text differs from file" flag that lbuf_modified reports
  * (lbuf units prove lbuf_modified == (seq(hist_u) != useq_zero)). */
 char g_lbobj[16];
+static char g_outbuf[2];	/* what sbuf_buf() hands out in the substitute unit */
+char *g_flags;		/* where the last re_read() left the argument pointer: the flags of :s */
+
 /* recorded splices / register / mark operations of the line commands */
 struct ghost_edit { int calls; char *txt; int beg, end; int len0; int yank_calls, yank_reg, yank_beg, yank_end; int mark_calls, mark, mark_pos; char *reg_buf; int cp_calls, cp_beg, cp_end; char *cp_ret; int print_lines, print_first, print_last; } X;
 
@@ -364,7 +396,8 @@ struct ghost_wr { long mtime0; int dirty0; int own; int whole; int force; char *
  * clauses are the assertions of the harness (they need pre-state snapshots of several objects) */
 int ec_cmd_frame_contract(char *loc, char *cmd, char *arg, char *txt)
 __CPROVER_requires(loc != 0 && cmd != 0 && arg != 0)
-__CPROVER_assigns(E, B, X, __CPROVER_object_whole(bufs), xrow, xoff, xtop, xleft, xtd, xquit, g_dup_src, g_dup_dst, g_len)
+__CPROVER_assigns(E, B, X, S, GW, xgdep, g_flags, loc[0], loc[1], __CPROVER_object_whole(bufs), xrow, xoff, xtop, xleft, xtd, xquit, g_dup_src, g_dup_dst, g_len,
+	__CPROVER_object_whole(xkwd), __CPROVER_object_whole(xrep), xkwddir)
 __CPROVER_frees(bufs[0].path)
 __CPROVER_ensures(1)
 ;
@@ -1008,8 +1041,9 @@ __CPROVER_ensures((__CPROVER_return_value == 0 && LN.cnt >= 1) ==> (*end == LN.l
 	(*beg == (LN.cnt == 1 ? LN.last : LN.prev) || ((LN.cnt == 1 ? LN.last : LN.prev) < 0 && *end == 0 && *beg == 0))))
 /* % is the whole buffer */
 __CPROVER_ensures((g_sl == 1 && __CPROVER_old(loc[0]) == '%') ==> (__CPROVER_return_value == 0 && *beg == 0 && *end == g_len))
-/* no address: the current line (nothing else changes) */
-__CPROVER_ensures((g_sl == 0 && __CPROVER_return_value == 0) ==> (*beg == xrow && xrow == __CPROVER_old(xrow) &&
+/* no address: the current line, first brought back inside the buffer if it was left outside (never rejected: :w must work) */
+__CPROVER_ensures(g_sl == 0 ==> (__CPROVER_return_value == 0 && *beg == xrow &&
+	xrow == (__CPROVER_old(xrow) < 0 ? 0 : __CPROVER_old(xrow) > g_len ? g_len : __CPROVER_old(xrow)) &&
 	*end == (xrow == g_len ? xrow : xrow + 1)))
 ;
 
@@ -1046,6 +1080,18 @@ void lbuf_edit(struct lbuf *lb, char *buf, int beg, int end)
 {
 	__CPROVER_assert(0 <= beg && beg <= end, "lbuf_edit precondition: 0 <= beg <= end");
 	X.calls = X.calls < 100 ? X.calls + 1 : 100;
+	if (S.line) {
+		/* substitute: the rewritten line replaces exactly its own line, lines are visited in increasing order,
+		 * only addressed lines are touched, only lines with a match, and the whole line was accounted for */
+		__CPROVER_assert(end == beg + 1 && S.beg <= beg && beg < S.end, "ec_substitute: only an addressed line is replaced, by exactly one splice of that line");
+		__CPROVER_assert(beg > S.last_edit, "ec_substitute: lines are rewritten in increasing order, each at most once");
+		__CPROVER_assert(S.matches >= 1, "ec_substitute: a line without a match is left alone");
+		__CPROVER_assert(S.matches == 1 || (g_flags != 0 && verif_strchr(g_flags, 'g') != 0), "ec_substitute: without the g flag (what follows the replacement) only the first match of a line is replaced");
+		__CPROVER_assert(S.in_pos == S.L && !S.bad, "ec_substitute: the rewritten line accounts for every byte of the original line (prefixes, matches, tail), in order");
+		__CPROVER_assert(buf == g_outbuf, "ec_substitute: the splice text is the string buffer built for this line");
+		S.last_edit = beg;
+		S.edits = S.edits < 1000 ? S.edits + 1 : 1000;
+	}
 	X.txt = buf;
 	X.beg = beg;
 	X.end = end;
@@ -1057,6 +1103,7 @@ void lbuf_edit(struct lbuf *lb, char *buf, int beg, int end)
 		return;
 	int ins = nondet_int();	/* number of lines of buf (0 iff NULL or empty) */
 	__CPROVER_assume(0 <= ins && ins <= 0x1000000 && (buf != 0 || ins == 0));
+	__CPROVER_assume(!S.line || ins >= 1);	/* a rewritten line keeps its final newline: at least one line */
 	g_len = g_len - (end - beg) + ins;
 	__CPROVER_assume(g_len <= 0x1000000);
 }
@@ -1186,6 +1233,437 @@ void h_ec_mark_lnum(void)
 		__CPROVER_assert(rr ? (ret == 1 && B.print_calls == prints0) : (ret == 0 && B.print_calls == prints0 + 1), "ec_lnum: prints once for a valid address, nothing otherwise");
 	}
 	__CPROVER_assert(X.calls == 0, "ec_mark/ec_lnum: never change the buffer");
+#ifdef CANARY
+	__CPROVER_assert(0, "canary");
+#endif
+}
+
+/* ================================================================== substitute (C14) */
+/* Position discipline: every byte of the line is either copied verbatim, in order, or belongs to
+ * a match that is replaced.  S.in_pos is how far the original line has been accounted for. */
+#define SUB_ISCONT(b)	(((b) & 0xc0) == 0x80)
+struct sbuf { int dummy; };
+static struct sbuf g_sbuf;
+static struct rstr { int dummy; } g_rstr;
+
+struct sbuf *sbuf_make(void)
+{
+	S.sb_live = S.sb_live < 1000 ? S.sb_live + 1 : 1000;
+	S.sb_made = S.sb_made < 1000 ? S.sb_made + 1 : 1000;
+	return &g_sbuf;
+}
+void sbuf_free(struct sbuf *sb)
+{
+	__CPROVER_assert(sb == &g_sbuf && S.sb_live > 0, "sbuf_free: frees a live string buffer");
+	S.sb_live--;
+	S.sb_freed = S.sb_freed < 1000 ? S.sb_freed + 1 : 1000;
+}
+char *sbuf_buf(struct sbuf *sb)
+{
+	__CPROVER_assert(sb == &g_sbuf, "sbuf_buf: a live string buffer");
+	return g_outbuf;
+}
+/* verbatim copy of n bytes of the line: must continue exactly where the accounting stands */
+struct ghost_rep { int on; char out[24]; int n; } R;	/* replace units: the bytes appended, in order */
+void sbuf_mem(struct sbuf *sb, char *s, int len)
+{
+	__CPROVER_assert(sb == &g_sbuf && len >= 0, "sbuf_mem: live buffer, non-negative length");
+	__CPROVER_assert(len == 0 || __CPROVER_r_ok(s, len), "sbuf_mem: source readable for len bytes");
+	if (R.on) {
+		/* loop-free (locals of a callee cannot be loop-assigned): at most 8 bytes are recorded */
+#define RREC_(k) if ((k) < len && R.n >= 0 && R.n < 24) { R.out[R.n] = s[k]; R.n = R.n + 1; }
+		RREC_(0) RREC_(1) RREC_(2) RREC_(3) RREC_(4) RREC_(5) RREC_(6) RREC_(7)
+#undef RREC_
+	}
+	if (S.line && __CPROVER_same_object(s, S.line)) {
+		if ((long) __CPROVER_POINTER_OFFSET(s) != S.in_pos || S.in_pos + len > S.L)
+			S.bad = 1;
+		if (S.expect_char) {
+			__CPROVER_assert(S.in_pos < S.L && len >= 1 && S.in_pos + len <= S.L && !SUB_ISCONT((unsigned char) S.line[S.in_pos + len]),
+				"ec_substitute: after an empty match the scan advances by one whole character (valid UTF-8 stays valid)");
+			S.expect_char = 0;
+		}
+		S.in_pos += len;
+	}
+}
+void sbuf_chr(struct sbuf *sb, int c)
+{
+	__CPROVER_assert(sb == &g_sbuf, "sbuf_chr: live buffer");
+	if (R.on && R.n >= 0 && R.n < 24) {
+		R.out[R.n] = (char) c;
+		R.n = R.n + 1;
+	}
+	/* in ec_substitute a single character is only ever appended as the verbatim copy of the next line byte */
+	if (S.line) {
+		if (S.in_pos >= S.L || (unsigned char) S.line[S.in_pos] != (unsigned char) c)
+			S.bad = 1;
+		if (S.expect_char) {
+			__CPROVER_assert(S.in_pos < S.L && !SUB_ISCONT((unsigned char) S.line[S.in_pos + 1]),
+				"ec_substitute: after an empty match the scan advances by one whole character (valid UTF-8 stays valid)");
+			S.expect_char = 0;
+		}
+		S.in_pos += 1;
+	}
+}
+void sbuf_str(struct sbuf *sb, char *s)
+{
+	__CPROVER_assert(sb == &g_sbuf && s != 0, "sbuf_str: live buffer, non-NULL string");
+	if (S.line && __CPROVER_same_object(s, S.line)) {
+		if ((long) __CPROVER_POINTER_OFFSET(s) != S.in_pos)
+			S.bad = 1;
+		S.in_pos = S.L;	/* the rest of the line */
+	}
+}
+
+/* replace() as seen by the scan loop: expands the replacement for the match at ln+offs[0] .. ln+offs[1] */
+void replace_contract(struct sbuf *dst, char *rep, char *ln, int *offs)
+__CPROVER_requires(dst == &g_sbuf && rep != 0 && ln != 0 && offs != 0)
+__CPROVER_requires(S.line != 0 && __CPROVER_same_object(ln, S.line) && 0 <= S.in_pos && S.in_pos <= S.L && 0 <= S.mlen && S.mlen <= S.L)
+__CPROVER_assigns(S.in_pos, S.bad, S.matches, S.expect_char)
+__CPROVER_ensures(S.expect_char == (offs[1] <= 0))
+__CPROVER_ensures(S.in_pos == __CPROVER_old(S.in_pos) + S.mlen)
+__CPROVER_ensures(S.bad == (__CPROVER_old(S.bad) || (long) __CPROVER_POINTER_OFFSET(ln) + offs[0] != __CPROVER_old(S.in_pos)))
+__CPROVER_ensures(S.matches == (__CPROVER_old(S.matches) < 1000000000 ? __CPROVER_old(S.matches) + 1 : 1000000000))
+;
+
+/* lbuf_get in this unit: every row of the range holds the ghost line S.line - a newline-terminated
+ * line of arbitrary length and content allocated by the harness (the per-line logic carries no
+ * state from one row to the next, so one arbitrary line stands for each of them) */
+char *g_subline;
+#ifndef UNIT_GLOB
+char *lbuf_get(struct lbuf *lb, int pos)
+{
+	if (pos < 0 || pos >= g_len)
+		return 0;
+	S.line = g_subline;
+	S.in_pos = 0;
+	S.finds = 0;
+	S.matches = 0;
+	S.expect_char = 0;
+	S.mlen = 0;
+	S.lines_seen = S.lines_seen < 1000000000 ? S.lines_seen + 1 : 1000000000;
+	return g_subline;
+}
+#endif
+
+/* callee contract of uc_next (units uc.codec / uc.window): stays at the NUL; otherwise moves at least
+ * one byte forward to a byte that is not a continuation byte, never past the terminator
+ * (over-approximation: which of those bytes is not pinned down here) */
+char *uc_next(char *s)
+{
+	if (s[0] == 0)
+		return s;
+	long k = nondet_long();
+	__CPROVER_assume(k >= 1 && k <= 0x7ffffff0L);
+	__CPROVER_assume(__CPROVER_r_ok(s, k + 1));
+	__CPROVER_assume(!SUB_ISCONT((unsigned char) s[k]) && ((unsigned char) s[0] >= 0xc0 || SUB_ISCONT((unsigned char) s[0]) || k == 1));
+	return s + k;
+}
+
+struct rstr *rstr_make(char *re, int flg)
+{
+	__CPROVER_assert(re != 0, "rstr_make: pattern is not NULL");
+	return S.re_ok ? &g_rstr : (struct rstr *) 0;
+}
+void rstr_free(struct rstr *rs)
+{
+	__CPROVER_assert(rs == &g_rstr, "rstr_free: the compiled pattern");
+}
+/* callee contract of rstr_find (units rstr.*, later regex units): -1, or 0 with
+ * 0 <= offs[0] <= offs[1] <= strlen(s) minus the newline, groups -1 or inside the match's line */
+int rstr_find(struct rstr *rs, char *s, int n, int *grps, int flg)
+{
+	__CPROVER_assert(rs == &g_rstr && s != 0, "rstr_find: compiled pattern and a line");
+	if (S.line && __CPROVER_same_object(s, S.line)) {
+		long off = __CPROVER_POINTER_OFFSET(s);
+		__CPROVER_assert(0 <= off && off <= S.L, "rstr_find: the scan point is inside the line");
+		/* a stored line is a C string: no NUL before its end (LINE_OK, instantiated at the scan point) */
+		__CPROVER_assume(s[0] != 0 || off == S.L);
+		/* C14: a line-start anchor matches only at the true line start: rescans say so */
+		__CPROVER_assert(off == 0 ? !(flg & RE_NOTBOL) : (flg & RE_NOTBOL) != 0, "ec_substitute: rescans after the first match are flagged not-at-line-start");
+		S.finds = S.finds < 1000 ? S.finds + 1 : 1000;
+		if (nondet_bool())
+			return -1;
+		__CPROVER_assert(n == 16 && grps != 0, "rstr_find: room for 16 group spans");
+		long so = nondet_long(), eo = nondet_long();
+		__CPROVER_assume(0 <= so && so <= eo && eo <= S.L - 1 - off);
+		grps[0] = (int) so;
+		grps[1] = (int) eo;
+		S.mlen = eo - so;
+		return 0;
+	}
+	return nondet_bool() ? -1 : 0;
+}
+
+char *re_read(char **src)
+{
+	__CPROVER_assert(src != 0 && *src != 0, "re_read: source pointer");
+	if (**src == 0)
+		return 0;
+	/* consumes the delimiter and at least nothing more: lands inside the string, after the start */
+	long off = __CPROVER_POINTER_OFFSET(*src), k = nondet_long();
+	__CPROVER_assume(off < k && k <= g_sl);
+	*src = *src - off + k;
+	g_flags = *src;
+	char *r = malloc(2);
+	r[0] = nondet_char();
+	r[1] = 0;
+	return r;
+}
+
+/* invariant of the per-line scan loop */
+#pragma CPROVER check push
+#pragma CPROVER check disable "pointer"
+#pragma CPROVER check disable "pointer-primitive"
+#pragma CPROVER check disable "signed-overflow"
+_Bool inv_sub_inner(char *ln, struct sbuf *r)
+{
+	if (!S.line || !__CPROVER_same_object(ln, S.line))
+		return 0;
+	long off = __CPROVER_POINTER_OFFSET(ln);
+	if (off < 0 || off > S.L || S.L < 1 || S.L > 0x7ffffff0L)
+		return 0;
+	if (S.bad || S.expect_char || S.in_pos != off)
+		return 0;		/* everything before the scan point is accounted for, in order */
+	if (S.matches < 0 || S.matches > 1000000000 || S.finds < 0 || S.finds > 1000 || S.mlen < 0 || S.mlen > S.L)
+		return 0;
+	if (r == 0)
+		return S.sb_live == 0 && S.matches == 0 && off == 0;
+	return r == &g_sbuf && S.sb_live == 1 && S.matches >= 1;
+}
+#pragma CPROVER check pop
+
+void h_ec_substitute(void)
+{
+	char loc[2], cmd[19], *arg;
+	GHOST_INIT();
+	FILE_ENV_HAVOC();
+	BUFS_HAVOC();
+	LINE_ENV_HAVOC();
+	CMD_HAVOC(cmd);
+	loc[0] = nondet_char(); loc[1] = 0;
+	g_sl = nondet_long();
+	__CPROVER_assume(0 <= g_sl && g_sl <= 20);	/* flags after the replacement: a short string (exact strchr) */
+	arg = malloc(g_sl + 1);
+	arg[g_sl] = 0;
+	__CPROVER_assume(bufs[0].lb != 0);
+	S.L = nondet_long();
+	__CPROVER_assume(1 <= S.L && S.L <= 0x7ffffff0L);
+	g_subline = malloc(S.L + 1);
+	__CPROVER_assume(g_subline[S.L - 1] == '\n' && g_subline[S.L] == 0);
+	__CPROVER_assume(g_mk >= (unsigned long) (S.L - 1) || (g_subline[g_mk] != 0 && g_subline[g_mk] != '\n'));
+	S.line = 0; S.bad = 0; S.sb_live = 0; S.sb_made = 0; S.sb_freed = 0; S.edits = 0; S.last_edit = -1; S.lines_seen = 0;
+	S.re_ok = nondet_bool(); S.rep_calls = 0; S.expect_char = 0; g_flags = 0; S.finds = 0; S.matches = 0; S.in_pos = 0;
+	S.beg = B.region_beg; S.end = B.region_end;
+	xkwddir = nondet_int();
+	int rr = B.region_ret;
+	int ret = ec_substitute(loc, cmd, arg, 0);
+	if (rr)
+		__CPROVER_assert(ret == 1 && S.edits == 0 && S.lines_seen == 0, "ec_substitute: an address that does not resolve is rejected with the buffer unchanged");
+	__CPROVER_assert(S.sb_live == 0, "ec_substitute: every string buffer made is freed");
+	__CPROVER_assert(!S.bad, "ec_substitute: the output is the line with matches replaced: every other byte copied verbatim, in order");
+	__CPROVER_assert(S.edits <= S.lines_seen, "ec_substitute: at most one splice per addressed line");
+#ifdef CANARY
+	__CPROVER_assert(0, "canary");
+#endif
+}
+
+
+/* ---- replace(): the replacement expansion (C14) ---- */
+/* BOUNDED functional check: every replacement of at most 4 bytes over all byte values, a 6-byte
+ * line, every assignment of group spans (set inside the line, or unset) */
+void h_replace_bounded(void)
+{
+	char rep[5], ln[7];
+	int offs[32], i, n = nondet_int();
+	GHOST_INIT();
+	S.line = 0;
+	__CPROVER_assume(0 <= n && n <= 4);
+	for (i = 0; i < 5; i++) {
+		rep[i] = nondet_char();
+		__CPROVER_assume(i >= n || rep[i] != 0);
+	}
+	rep[n] = 0;
+	for (i = 0; i < 7; i++)
+		ln[i] = nondet_char();
+	ln[6] = 0;
+	for (i = 0; i < 16; i++) {
+		int so = nondet_int(), eo = nondet_int();
+		__CPROVER_assume((so == -1 && eo == -1) || (0 <= so && so <= eo && eo <= 6));
+		offs[2 * i] = so;
+		offs[2 * i + 1] = eo;
+	}
+	R.on = 1;
+	R.n = 0;
+	replace(&g_sbuf, rep, ln, offs);
+	/* reference expansion, written from the statement */
+	char want[24];
+	int wn = 0, p = 0, k;
+	while (p < n) {
+		if (rep[p] == '\\' && p + 1 < n) {
+			char c = rep[p + 1];
+			if (c >= '0' && c <= '9') {
+				int g = c - '0';
+				if (offs[2 * g] >= 0)	/* a group that did not take part expands to nothing */
+					for (k = offs[2 * g]; k < offs[2 * g + 1]; k++)
+						want[wn++] = ln[k];
+			} else {
+				want[wn++] = c;		/* \c stands for c */
+			}
+			p += 2;
+		} else {
+			want[wn++] = rep[p];
+			p += 1;
+		}
+	}
+	__CPROVER_assert(R.n == wn, "replace: the expansion has the length the statement gives (\\0-\\9 group text, empty when unset; \\c = c)");
+	for (k = 0; k < 24; k++)
+		if (k < wn)
+			__CPROVER_assert(R.out[k] == want[k], "replace: the expansion is byte for byte what the statement gives");
+#ifdef CANARY
+	__CPROVER_assert(0, "canary");
+#endif
+}
+
+/* unbounded safety: any replacement length, any line, valid group spans */
+long g_replen, g_linelen;
+void replace_safe_contract(struct sbuf *dst, char *rep, char *ln, int *offs)
+__CPROVER_requires(dst == &g_sbuf)
+__CPROVER_requires(0 <= g_replen && g_replen <= EXLEN && __CPROVER_is_fresh(rep, g_replen + 1) && rep[g_replen] == 0)
+__CPROVER_requires(0 <= g_linelen && g_linelen <= 0x7ffffff0L && __CPROVER_is_fresh(ln, g_linelen + 1) && ln[g_linelen] == 0)
+__CPROVER_requires(__CPROVER_is_fresh(offs, sizeof(int) * 32))
+/* what rstr_find guarantees (units rstr.rstr_find, rset_find): each of the ten spans that a
+ * replacement can name is unset (-1,-1) or lies inside the line */
+#define SPAN_OK(g) ((offs[2 * (g)] == -1 && offs[2 * (g) + 1] == -1) || (0 <= offs[2 * (g)] && offs[2 * (g)] <= offs[2 * (g) + 1] && offs[2 * (g) + 1] <= g_linelen))
+__CPROVER_requires(SPAN_OK(0) && SPAN_OK(1) && SPAN_OK(2) && SPAN_OK(3) && SPAN_OK(4) && SPAN_OK(5) && SPAN_OK(6) && SPAN_OK(7) && SPAN_OK(8) && SPAN_OK(9))
+__CPROVER_requires(g_sl == g_replen)
+__CPROVER_assigns(R, S.in_pos, S.bad, S.expect_char)
+;
+
+void h_replace_safe(void)
+{
+	char *rep, *ln;
+	int *offs;
+	GHOST_INIT();
+	S.line = 0; R.on = 0;
+	g_k = nondet_int();
+	g_replen = nondet_long(); g_linelen = nondet_long(); g_sl = nondet_long();
+	replace(&g_sbuf, rep, ln, offs);
+#ifdef CANARY
+	__CPROVER_assert(0, "canary");
+#endif
+}
+
+/* ================================================================== global (C15) */
+/* One witness line, tracked through arbitrary splices made by the executed command list.
+ * kind: 0 = original line of the range after the first (gets marked), 1 = the first line of the
+ * range (visited first, never marked), 2 = original line outside the range, 3 = a line that a
+ * command execution inserts (not alive at the start). */
+
+/* callee contracts of the glob accessors (unit lbuf.glob): bit dep of one line only */
+void lbuf_globset(struct lbuf *lb, int pos, int dep)
+{
+	__CPROVER_assert(0 <= pos && pos < g_len && 1 <= dep && dep <= 7, "lbuf_globset precondition: existing line, depth 1..7 (a bit of a char)");
+	if (GW.alive && pos == GW.pos && dep == GW.dep)
+		GW.marked = 1;
+	GW.sets = GW.sets < 1000000000 ? GW.sets + 1 : 1000000000;
+}
+int lbuf_globget(struct lbuf *lb, int pos, int dep)
+{
+	__CPROVER_assert(0 <= pos && pos < g_len && 1 <= dep && dep <= 7, "lbuf_globget precondition: existing line, depth 1..7");
+	if (GW.alive && pos == GW.pos && dep == GW.dep) {
+		int m = GW.marked;
+		GW.marked = 0;
+		return m;
+	}
+	return nondet_bool();	/* some other line: marked or not */
+}
+
+/* EXEC_OK: the class of command lists of the property (delete, substitute, put, a/i/c with text,
+ * relative-address commands, nested global).  They splice the current buffer arbitrarily; the
+ * mark of a surviving line travels with it (lbuf_replace's glob clause), inserted lines carry no
+ * mark, a nested global works on depth dep+1 and clears its own bits; the current line ends at or
+ * before every line whose index changed (ec_delete, ec_insert, ec_put units); no sequence bump. */
+int ex_exec_glob_contract(char *ln)
+__CPROVER_requires(ln != 0)
+__CPROVER_requires(xrow == GW.last_get)	/* the command list runs with the line just tested as the current line */
+__CPROVER_assigns(g_len, xrow, xoff, GW.alive, GW.pos, GW.execs, GW.broke, GW.any_exec, E, X, B.show_calls, B.print_calls, B.regput_calls)
+__CPROVER_ensures(0 <= g_len && g_len <= 0x1000000 && -1 <= xrow && xrow <= g_len)
+__CPROVER_ensures(GW.execs == __CPROVER_old(GW.execs) + ((__CPROVER_old(GW.alive) && __CPROVER_old(GW.pos) == __CPROVER_old(xrow)) ? 1 : 0))
+__CPROVER_ensures((GW.alive == 0 || GW.alive == 1) && (GW.alive ==> (0 <= GW.pos && GW.pos < g_len)))
+/* an original line does not come back once deleted; an inserted line may appear (unmarked) */
+__CPROVER_ensures((!__CPROVER_old(GW.alive) && GW.alive) ==> (GW.kind == 3 && !GW.marked))
+__CPROVER_ensures((__CPROVER_old(GW.alive) && GW.alive && GW.pos != __CPROVER_old(GW.pos)) ==> xrow <= GW.pos)
+__CPROVER_ensures((!__CPROVER_old(GW.alive) && GW.alive) ==> xrow <= GW.pos + 0x1000000)
+__CPROVER_ensures(GW.broke == (__CPROVER_old(GW.broke) || __CPROVER_return_value != 0))
+__CPROVER_ensures(GW.any_exec == 1)
+;
+
+struct lbuf *g_glob_lb;
+char g_globline[2];
+#ifdef UNIT_GLOB
+char *lbuf_get(struct lbuf *lb, int pos)
+{
+	if (pos < 0 || pos >= g_len)
+		return 0;
+	GW.last_get = pos;
+	if (GW.alive && pos == GW.pos)
+		GW.tested = GW.tested < 1000 ? GW.tested + 1 : 1000;
+	return g_globline;
+}
+#endif
+
+void h_ec_glob(void)
+{
+	char loc[3], cmd[19], *arg;
+	GHOST_INIT();
+	FILE_ENV_HAVOC();
+	BUFS_HAVOC();
+	LINE_ENV_HAVOC();
+	CMD_HAVOC(cmd);
+	loc[0] = nondet_char(); loc[1] = 0; loc[2] = 0;
+	g_sl = nondet_long();
+	__CPROVER_assume(0 <= g_sl && g_sl <= 20);
+	arg = malloc(g_sl + 1);
+	arg[g_sl] = 0;
+	__CPROVER_assume(bufs[0].lb != 0);
+	S.re_ok = nondet_bool();
+	xkwddir = nondet_int();
+	xgdep = nondet_int();
+	__CPROVER_assume(0 <= xgdep && xgdep <= 6);	/* nesting depth below 7: the mark is a bit of a char (deeper nesting: finding F14) */
+	int dep0 = xgdep;
+	GW.dep = xgdep + 1;
+	GW.kind = nondet_int(); GW.pos = nondet_int();
+	__CPROVER_assume(0 <= GW.kind && GW.kind <= 3);
+	int rb = B.region_beg, re = B.region_end, rr = B.region_ret;
+	GW.alive = GW.kind != 3;
+	__CPROVER_assume(!GW.alive || (0 <= GW.pos && GW.pos < g_len));
+	__CPROVER_assume(GW.kind != 0 || (rb < GW.pos && GW.pos < re));
+	__CPROVER_assume(GW.kind != 1 || GW.pos == rb);
+	__CPROVER_assume(GW.kind != 2 || (GW.pos < rb || GW.pos >= re));
+	GW.marked = 0; GW.tested = 0; GW.execs = 0; GW.last_get = -5; GW.broke = 0; GW.sets = 0; GW.any_exec = 0;
+	/* known finding F20: with an empty range on a non-empty buffer (address 0) the first line is still tested */
+#ifdef KF_EXCLUDE_F20
+	__CPROVER_assume(rr || rb < re || rb >= g_len);
+#endif
+#ifdef KF_ONLY_F20
+	__CPROVER_assume(!rr && rb == re && rb < g_len && GW.kind == 2 && GW.pos == rb);
+#endif
+	int mods0 = B.mod_calls;
+	int ret = ec_glob(loc, cmd, arg, 0);
+	if (rr) {
+		__CPROVER_assert(ret == 1 && GW.tested == 0 && !GW.any_exec, "ec_glob: an address that does not resolve is rejected, nothing runs");
+	}
+	__CPROVER_assert(xgdep == dep0, "ec_glob: the nesting depth is restored");
+	__CPROVER_assert(B.mod_calls == mods0, "ec_glob: no sequence bump inside the global: all its edits form one undo step");
+	__CPROVER_assert(GW.tested <= 1 && GW.execs <= 1, "ec_glob: a line is visited at most once");
+	__CPROVER_assert(GW.execs <= GW.tested, "ec_glob: the command list runs on a line only when that line was just tested");
+	if (GW.kind >= 2)
+		__CPROVER_assert(GW.tested == 0, "ec_glob: lines outside the range and lines inserted by the command list are never visited");
+	if (!rr && S.re_ok && ret == 0 && !GW.broke && GW.kind <= 1 && GW.alive && rb < re)
+		__CPROVER_assert(GW.tested == 1, "ec_glob: every line of the original range that still exists is visited (none skipped)");
+	if (GW.alive && ret == 0)
+		__CPROVER_assert(!GW.marked, "ec_glob: all marks of this depth are cleared on exit");
 #ifdef CANARY
 	__CPROVER_assert(0, "canary");
 #endif
